@@ -53,9 +53,9 @@ CONFIGS = {
     'AQUA-IMU':           ('AQUA', 'IMU', None, True, 'right', 0.02, False),
     'AQUA-MARG':          ('AQUA', 'MARG', None, True, 'right', 0.02, False),
     'Fourati-MARG':       ('Fourati', 'MARG', None, True, 'left', 0.02, False),
-    'ROLEQ-MARG-NED':     ('ROLEQ', 'MARG', 'NED', True, 'left', 2e-05, False),
+    'ROLEQ-MARG-NED':     ('ROLEQ', 'MARG', 'NED', True, 'left', 1e-06, False),
     'ROLEQ-MARG-ENU':     ('ROLEQ', 'MARG', 'ENU', True, 'left', 0.002, False),
-    'FKF-MARG':           ('FKF', 'MARG', None, False, 'left', 0.012, False),
+    'FKF-MARG':           ('FKF', 'MARG', None, False, 'left', 0.015, False),
     'Complementary-IMU':  ('Complementary', 'IMU', None, False, 'left', 0.001, False),
     'Complementary-MARG': ('Complementary', 'MARG', None, False, 'left', 0.002, False),
 }
@@ -92,7 +92,7 @@ ASSUMPTIONS = [
     'tol_f = 100 x the worst deviation observed over the whole thorough menu on the unchanged tree, rounded up (observed -> tol, rad): '
     'Madgwick 1.29e-3 -> 0.13 (its fixed-length gradient step gain*dt = 4e-4 makes two runs chatter apart); Mahony 1.74e-4 -> 0.02; '
     'EKF 5.6e-5 -> 0.006; UKF 3.6e-3 -> 0.4 (streaming: its covariance reset makes the estimate jitter by ~1e-2); AQUA 1.84e-4 -> 0.02; '
-    'Fourati 1.95e-4 -> 0.02; ROLEQ-NED 1.5e-7 -> 2e-5; ROLEQ-ENU 1.65e-5 -> 2e-3; FKF 1.05e-4 -> 0.012; Complementary IMU 8.9e-6 -> 1e-3, '
+    'Fourati 1.95e-4 -> 0.02; ROLEQ-NED 7.3e-9 -> 1e-6; ROLEQ-ENU 1.65e-5 -> 2e-3; FKF 1.35e-4 -> 0.015; Complementary IMU 8.9e-6 -> 1e-3, '
     'MARG 1.57e-5 -> 2e-3.  Most of the observed deviation is physical (up to three missed gyro samples = 1.5e-4 rad that slow '
     'filters keep for seconds), which is why the body rate is small.  The upper rule (<= 1e-3 x smallest mutation effect) cannot be met by a '
     'differential oracle of this kind: the smallest finite mutation tried (dropout fallback called with acc and gyr swapped) '
